@@ -34,11 +34,48 @@ func lockOrReport(try func() bool, what string) {
 type (
 	Once      = sync.Once
 	WaitGroup = sync.WaitGroup
-	Pool      = sync.Pool
 	Map       = sync.Map
 	Locker    = sync.Locker
 	Cond      = sync.Cond
 )
+
+// Pool is a deterministic stand-in for sync.Pool: Get hands out the item that was Put last (one of the behaviours
+// sync.Pool is allowed to show, and the one that exposes an item that is put back while somebody still uses it);
+// the real pool's choice depends on the processor the goroutine runs on and on the garbage collector, i.e. on
+// nondeterminism the explorer does not own. Get and Put are scheduling points.
+type Pool struct {
+	New   func() any
+	mu    sync.Mutex
+	items []any
+}
+
+func (p *Pool) Get() any {
+	if t := sched.Cur(); t != nil {
+		t.Point("Pool.Get")
+	}
+	p.mu.Lock()
+	var x any
+	if n := len(p.items); n > 0 {
+		x, p.items = p.items[n-1], p.items[:n-1]
+	}
+	p.mu.Unlock()
+	if x == nil && p.New != nil {
+		x = p.New()
+	}
+	return x
+}
+
+func (p *Pool) Put(x any) {
+	if x == nil {
+		return
+	}
+	if t := sched.Cur(); t != nil {
+		t.Point("Pool.Put")
+	}
+	p.mu.Lock()
+	p.items = append(p.items, x)
+	p.mu.Unlock()
+}
 
 func NewCond(l Locker) *Cond { return sync.NewCond(l) }
 
